@@ -319,10 +319,17 @@ func recvName(e ast.Expr) string {
 // parenthesised forms of those) are accepted; anything else stops the build
 // (exit 2) so that the nondeterminism cannot slip in unnoticed.
 func rewriteMapRange(fi *fileInfo, r *ast.RangeStmt, offOf func(token.Pos) int, isLabeled bool, n int) {
-	if !pureOperand(r.X) {
-		die("%s: range over a map expression with possible side effects – extend rewriteMapRange", fi.name)
-	}
 	x := string(fi.src[offOf(r.X.Pos()):offOf(r.X.End())])
+	impure := !pureOperand(r.X)
+	if impure {
+		if isLabeled {
+			// (a labelled loop over a computed map cannot be wrapped in a block without changing what its
+			// label means: left to the runtime's order)
+			return
+		}
+		// the map expression is evaluated once, into a temporary, in a block around the loop
+		x = fmt.Sprintf("verifM%d", n)
+	}
 	kv := fmt.Sprintf("verifK%d", n)
 	var assign string
 	keyName, valName := "", ""
@@ -351,6 +358,14 @@ func rewriteMapRange(fi *fileInfo, r *ast.RangeStmt, offOf func(token.Pos) int, 
 		assign = fmt.Sprintf(" _ = %s;", kv)
 	}
 	header := fmt.Sprintf("for _, %s := range verifsim.SortedKeys(%s) {%s", kv, x, assign)
+	if impure {
+		// (the original expression text stays where it is: it may hold edits of its own)
+		fi.edits = append(fi.edits,
+			edit{off: offOf(r.For), end: offOf(r.X.Pos()), text: fmt.Sprintf("{ %s := ", x), prio: 5},
+			edit{off: offOf(r.X.End()), end: offOf(r.Body.Lbrace) + 1, text: "; " + header, prio: 5},
+			edit{off: offOf(r.End()), end: offOf(r.End()), text: " }", prio: -3})
+		return
+	}
 	fi.edits = append(fi.edits, edit{off: offOf(r.For), end: offOf(r.Body.Lbrace) + 1, text: header, prio: 5})
 }
 
